@@ -142,6 +142,10 @@ fn pto_formula(backoff: u32) {
 #[kani::proof]
 #[kani::unwind(3)]
 fn vq_c09_rtt_pto_period_backoff_2() {
+    // obligations of the shared body `pto_formula` (listed here for the registry):
+    //   "C09/rtt.calculate_base_pto_micros/is_backoff_times_srtt_plus_4rttvar_plus_max_ack_delay"
+    //   "C09/rtt.pto_period/is_base_floored_at_granularity"
+    //   "C09/rtt.pto_period/never_below_1ms"
     pto_formula(2);
 }
 
@@ -151,6 +155,10 @@ fn vq_c09_rtt_pto_period_backoff_2() {
 #[kani::proof]
 #[kani::unwind(3)]
 fn vq_c09_rtt_pto_period_backoff_4() {
+    // obligations of the shared body `pto_formula` (listed here for the registry):
+    //   "C09/rtt.calculate_base_pto_micros/is_backoff_times_srtt_plus_4rttvar_plus_max_ack_delay"
+    //   "C09/rtt.pto_period/is_base_floored_at_granularity"
+    //   "C09/rtt.pto_period/never_below_1ms"
     pto_formula(4);
 }
 
@@ -160,6 +168,10 @@ fn vq_c09_rtt_pto_period_backoff_4() {
 #[kani::proof]
 #[kani::unwind(3)]
 fn vq_c09_rtt_pto_period_backoff_8() {
+    // obligations of the shared body `pto_formula` (listed here for the registry):
+    //   "C09/rtt.calculate_base_pto_micros/is_backoff_times_srtt_plus_4rttvar_plus_max_ack_delay"
+    //   "C09/rtt.pto_period/is_base_floored_at_granularity"
+    //   "C09/rtt.pto_period/never_below_1ms"
     pto_formula(8);
 }
 
@@ -169,6 +181,10 @@ fn vq_c09_rtt_pto_period_backoff_8() {
 #[kani::proof]
 #[kani::unwind(3)]
 fn vq_c09_rtt_pto_period_backoff_64() {
+    // obligations of the shared body `pto_formula` (listed here for the registry):
+    //   "C09/rtt.calculate_base_pto_micros/is_backoff_times_srtt_plus_4rttvar_plus_max_ack_delay"
+    //   "C09/rtt.pto_period/is_base_floored_at_granularity"
+    //   "C09/rtt.pto_period/never_below_1ms"
     pto_formula(64);
 }
 
